@@ -247,6 +247,10 @@ func c07Key(r *rt.Rec, seed [48]byte) (*dilithium.Dilithium, *dilref.Key, bool) 
 	}
 	r.Count("uniform_candidates_rejected", int64(ref.Uniform.Rejected))
 	r.Max("max_uniform_rejections_in_one_polynomial", int64(ref.Uniform.MaxPerPoly))
+	if ref.WrapCount > 0 {
+		r.Count("boundary_keygen_t_wraps_mod_q", 1)
+		r.Observe("boundary_witnesses", fmt.Sprintf(`{"seed":"%s","msg":"","kinds":"keygen-wrap"}`, cs.Seed))
+	}
 	if ref.Uniform.CandQ > 0 {
 		r.Count("boundary_uniform_cand=q(reject)", int64(ref.Uniform.CandQ))
 		r.Observe("boundary_witnesses", fmt.Sprintf(`{"seed":"%s","msg":"","kinds":"uniform=q"}`, cs.Seed))
@@ -465,6 +469,26 @@ func init() {
 				if a := int(dilithium.VerifSignAttempts - before); a >= min {
 					fmt.Printf(`{"seed":"%s","msg":"%s","kinds":"attempts>=%d"}`+"\n", rt.Hex(ks[:]), rt.Hex(msg), a/8*8)
 				}
+			}
+		}
+		os.Exit(0)
+	}
+}
+
+// Hidden developer sub-command: mon C07keysearch <seed> <keys>
+// Looks, with the REFERENCE key generation, for seeds whose t = A*s1 + s2 leaves [0,q) before the
+// reduction at some coefficient (a representative boundary of key generation, about 2.5e-4 per key).
+func init() {
+	if len(os.Args) >= 4 && os.Args[1] == "C07keysearch" {
+		var seed uint64
+		var n int
+		fmt.Sscan(os.Args[2], &seed)
+		fmt.Sscan(os.Args[3], &n)
+		rng := rt.NewRand(seed, "C07keysearch")
+		for i := 0; i < n; i++ {
+			ks := rng.Seed48()
+			if k := dilRefKey(ks); k.WrapCount > 0 {
+				fmt.Printf(`{"seed":"%s","msg":"","kinds":"keygen-wrap"}`+"\n", rt.Hex(ks[:]))
 			}
 		}
 		os.Exit(0)
